@@ -693,6 +693,21 @@ def check_row_independence(ctx):
                sample={"rule": "C09.7", "dictionary": root, "leftover_variables": mine, "row_assigned_locals": len(carried)})
 
 
+def check_own_storage(ctx):
+    """C09.8: every field array the reader fills has its own storage.  ``dict.fromkeys(names, <array>)`` and ``[<array>] * n`` evaluate
+    the allocation once: every extra score column (or ensemble member, threshold ...) would then be a view of one array and show
+    the values of the column stored last."""
+    from .. import lints
+    prog = ctx.prog
+    ctx.control("C09.8", lints.control(), "shared-allocation lint recognises dict.fromkeys(keys, alloc) and [alloc] * n and stays silent on immutable values")
+    m = prog.module("verif.input")
+    hits = lints.shared_allocations(m.tree)
+    n_alloc = sum(1 for n in ast.walk(m.tree) if isinstance(n, ast.Call) and isinstance(n.func, ast.Attribute) and n.func.attr in ("zeros", "ones", "full", "empty"))
+    ctx.need(n_alloc >= 8, "C09.8: fewer array allocations in verif/input.py than confirmed (%d)" % n_alloc)
+    ctx.ob("C09.8", "verif.input", not hits, "no mutable allocation of verif/input.py is shared between keys or positions (%d array allocations examined)" % n_alloc,
+           loc=prog.loc(m, hits[0][0]) if hits else None, msg="; ".join(h[1] for h in hits))
+
+
 def run(ctx):
     ctx.rule("C09.1", "column -> dictionary -> attribute wiring; level = float(name[1:]); aliases")
     ctx.rule("C09.2", "column classification predicates and their complement")
@@ -707,6 +722,8 @@ def run(ctx):
     check_header_names(ctx)
     ctx.rule("C09.7", "row independence: no scalar left over from an earlier row reaches a stored key or value")
     check_row_independence(ctx)
+    ctx.rule("C09.8", "own storage: no array of the reader is shared between fields (dict.fromkeys / list repetition of one allocation)")
+    check_own_storage(ctx)
     from . import c04
     from .c04 import _import
     sub = type(ctx)(ctx.prog, "C04", ctx.tier, True)
